@@ -46,6 +46,7 @@ type Builder struct {
 	fileNo int
 	sid    [16]byte
 	gno    int64
+	lastCS *[3]uint16
 }
 
 // NewBuilder starts a history.
@@ -348,7 +349,15 @@ func (b *Builder) charset() *[3]uint16 {
 	if b.R.Chance(1, 3) {
 		return nil
 	}
-	return &[3]uint16{uint16(b.R.Intn(300)), uint16(b.R.Intn(300)), uint16(b.R.Intn(65536))}
+	if b.lastCS != nil && b.R.Bool() {
+		// a session keeps its character sets: consecutive statements usually
+		// carry the same triple
+		cs := *b.lastCS
+		return &cs
+	}
+	b.lastCS = &[3]uint16{uint16(b.R.Intn(300)), uint16(b.R.Intn(300)), uint16(b.R.Intn(65536))}
+	cs := *b.lastCS
+	return &cs
 }
 
 // Unit draws one unit of the given kind.
